@@ -112,6 +112,10 @@ VARIANTS = [
     V( 'forward-open-keeps-proposed-id', DEVICE, "O_T.connection_ID = random.randint( 0, 2**32-1 )", "O_T.connection_ID	=  O_T.connection_ID or random.randint( 1, 2**32-1 )", fires=[ 'K-FORWARDS' ] ),
     V( 'listener-asks-peer-name', NETWORK, "thrd = None\n try:\n thrd = thread_factory(", "thrd			= None\n        peer			= conn.getpeername()\n        try:\n            thrd		= thread_factory(", fires=[ 'E-CONTAIN' ] ),
     V( 'unknown-attribute-preset-range-error', LOGIX, "assert attribute is not None, \\\n", "data.status = 0xFF\n            data.status_ext = {'size': 1, 'data': [ 0x2105 ]}\n            assert attribute is not None, \\\n", fires=[ 'S-STATUS' ] ),
+    V( 'resolve-extends-by-one-segment-only', DEVICE, "if longer is not None and any( s == longer or s.startswith( longer + u'.' ) for s in symbol ):", "if longer is not None and longer in symbol:", fires=[ 'D-PATHSTOP' ], why='defect DA' ),
+    V( 'gal-slot-zero-is-an-attribute', DEVICE, "if not isinstance( self.attribute.get( str(a_id) ), Attribute ): # (number 0 is the Object)", "if str(a_id) not in self.attribute:", fires=[ 'L-GALREPLY' ], why='defect DB' ),
+    V( 'forget-requests', 'remote/plc.py', "if address in self._data: # forgetting what was never requested must not request it\n self._data[address] = None", "self._data[address]		= None", fires=[ 'M-FORGET' ], why='defect DC' ),
+    V( 'forget-by-membership-first', 'remote/plc.py', "if address in self._data: # forgetting what was never requested must not request it\n self._data[address] = None", "if address not in self._data:\n            return\n        self._data[address]	= None", silent=[ 'M-FORGET' ] ),
     V( 'struct-index-not-scaled', AUTO, "beg = self.offset + self.index * siz", "beg			= self.offset + self.index", fires=[ 'T-TYPES' ] ),
     V( 'struct-class-format-compiled', AUTO, "self._struct = struct.Struct( self.struct_format )", "self._struct		= struct.Struct( type( self ).struct_format )", fires=[ 'T-TYPES' ] ),
     V( 'struct-unpack-at-offset', AUTO, "buf = data[ours+self._input][beg:end]\n val = self._struct.unpack_from( buffer=buf )[0]",
@@ -460,8 +464,8 @@ VARIANTS = [
        "if any( key in term and result[key] is not None and result[key] != term[key] for key in result ):\n                raise AssertionError( 'Failed to override' )\n            continue", silent=[ 'D-PATHSTOP' ] ),
     V( 'pathstop-ignores-explicit-attribute', DEVICE, "or ( attribute is not True #   or a default attribute is supplied\n and 'attribute' not in term ) #     and the term didn't contain a supplied one", "or attribute is not True", fires=[ 'D-PATHSTOP' ] ),
     V( 'pathstop-skips-symbolic', DEVICE, "if ( 'symbolic' not in term # A symbolic term names a Tag: resolve it, or fail\n and result['class'] is not None", "if ( result['class'] is not None", fires=[ 'D-PATHSTOP' ], why='defect AC' ),
-    V( 'resolve-first-hit-wins', DEVICE, "if found and not tag and canonicalize_tag( found + u'.' + working['symbolic'] ) in symbol:", "if False:", fires=[ 'D-PATHSTOP' ], why='defect CU' ),
-    V( 'resolve-longest-name-looked-up-once', DEVICE, "if found and not tag and canonicalize_tag( found + u'.' + working['symbolic'] ) in symbol:", "longer = canonicalize_tag( found + u'.' + working['symbolic'] ) if found and not tag else None\n                if longer is not None and longer in symbol:", silent=[ 'D-PATHSTOP' ] ),
+    V( 'resolve-first-hit-wins', DEVICE, "if longer is not None and any( s == longer or s.startswith( longer + u'.' ) for s in symbol ):", "if False:", fires=[ 'D-PATHSTOP' ], why='defect CU' ),
+    V( 'resolve-longest-name-looked-up-once', DEVICE, "if longer is not None and any( s == longer or s.startswith( longer + u'.' ) for s in symbol ):", "if longer is not None and [ s for s in symbol if s == longer or s.startswith( longer + u'.' ) ]:", silent=[ 'D-PATHSTOP' ] ),
     V( 'pathstop-break-hides-later-symbolic', DEVICE, "% ( result, term, path['segment'] )\n continue", "% ( result, term, path['segment'] )\n            break", fires=[ 'D-PATHSTOP' ], why='defect AC' ),
     V( 'retag-old-attribute-stored-back', LOGIX, "instance.attribute[str(att)] \\\n = val['attribute']", "instance.attribute[str(att)] = attribute", fires=[ 'T-RETAG' ], why='defect AD' ),
     V( 'retag-dotted-form', LOGIX, "instance.attribute[str(att)] \\\n = val['attribute']", "instance.attribute[str(att)] = val.attribute", silent=[ 'T-RETAG' ] ),
